@@ -27,6 +27,46 @@ def reference_bic(labels, thetas, covs):
     return float(P * np.log(np.longdouble(len(labels))) - 2 * tot), P
 
 
+def build_state(K, n, labels, thetas, covs, eps=0):
+    from fast_ticc.containers import model_state, arguments
+    ua = arguments.UserArguments(sparsity_weight=0.1, iteration_limit=1, label_switching_cost=1.0, min_cluster_size=1,
+                                 min_meaningful_covariance=eps, num_clusters=K, num_processors=1, biased_covariance=False, window_size=1)
+    ms = model_state.ModelState.empty_model(ua, None)
+    ms.point_labels = list(labels)
+    for k, c in enumerate(ms.clusters):
+        c.train_inverse = thetas[k]
+        c.empirical_covariance = covs[k]
+    return ms
+
+
+def bic_values(cases):
+    """worker entry point (other execution modes / thread counts): BIC of hand-built states"""
+    from fast_ticc import cluster_metrics as cmx
+    return [float(cmx.bayesian_information_criterion(build_state(K, n, labels, thetas, covs))) for (K, n, labels, thetas, covs) in cases]
+
+
+def long_run_cases(rng, count):
+    """label sequences of thousands of points made of a few long runs (and one with a run per point)"""
+    out = []
+    for j in range(count):
+        K = 2 + j % 3
+        n = 2
+        T = [1200, 4100, 9000][j % 3]
+        cuts = sorted(int(x) for x in rng.choice(np.arange(1, T), size=2 + j % 4, replace=False))
+        labels, cur = [], 0
+        for a, b in zip([0] + cuts, cuts + [T]):
+            labels += [cur % K] * (b - a)
+            cur += 1 + j % 2
+        if j % 5 == 4:
+            labels = [i % K for i in range(T)]
+        thetas, covs = [], []
+        for k in range(K):
+            A = rng.normal(size=(n, n)); thetas.append(A @ A.T / n + np.eye(n) * 0.2)
+            B = rng.normal(size=(n, n)); covs.append(B @ B.T / n)
+        out.append((K, n, labels, thetas, covs))
+    return out
+
+
 def run(ctx):
     from fast_ticc import cluster_metrics as cmx
     from fast_ticc.containers import model_state, arguments
@@ -35,7 +75,29 @@ def run(ctx):
     core.note_drift(ctx, ANCHORS)
     cov = core.LineCoverage()
     nnz_l, bic_l = [], []
+    # long label sequences, also evaluated with the JIT-compiled code on several threads
+    long_cases = long_run_cases(rng, ctx.budget(6, 20))
+    jit_handle = core.start_worker(ctx, "vcheck.props.c16:bic_values", long_cases, mode="jit", extra_env={"NUMBA_NUM_THREADS": "4"}, tag="bicjit")
     with cov:
+        for (K_, n_, labels_, thetas_, covs_) in long_cases:
+            ctx.count("unit-long")
+            ctx.mark_nontrivial(("long", len(labels_), K_))
+            with ctx.guard("bayesian_information_criterion", {"K": K_, "points": len(labels_)}):
+                got = float(cmx.bayesian_information_criterion(build_state(K_, n_, labels_, thetas_, covs_)))
+                ref, P = reference_bic(labels_, thetas_, covs_)
+                if not np.isfinite(got) or abs(got - ref) > 1e-9 * max(1.0, abs(ref)):
+                    ctx.violation("monitor", "BIC %r of a sequence of %d labels in %d runs differs from its definition %r" % (
+                        got, len(labels_), 1 + sum(a != b for a, b in zip(labels_, labels_[1:])), ref), {"case": {"K": K_, "points": len(labels_), "seed": ctx.seed}})
+        jr = core.wait_worker(jit_handle, timeout=600)
+        if not jr["ok"]:
+            ctx.violation("tie", "JIT-mode BIC worker failed: %s" % jr["error"][:300], {"correspondence": "harness:C16/jit"}, no_input=True)
+        else:
+            for (K_, n_, labels_, thetas_, covs_), got in zip(long_cases, jr["result"]):
+                ctx.count("unit-long-jit")
+                ref, P = reference_bic(labels_, thetas_, covs_)
+                if not np.isfinite(got) or abs(got - ref) > 1e-9 * max(1.0, abs(ref)):
+                    ctx.violation("monitor", "with the JIT-compiled code on 4 threads the BIC %r of a sequence of %d labels differs from its definition %r" % (
+                        got, len(labels_), ref), {"case": {"K": K_, "points": len(labels_), "seed": ctx.seed, "mode": "jit, NUMBA_NUM_THREADS=4"}})
         for i in range(ctx.budget(60, 300)):
             K = int(rng.integers(1, 5)); n = [1, 2, 3, 6, 60][i % 5] if i % 5 < 4 or i < 10 or ctx.thorough else 3
             T = int(rng.integers(1, 40))
